@@ -206,7 +206,7 @@ Proof. unfold enter_ctx. destruct (get_task t s); destruct c; mm. Qed.
 Lemma mild_pause_plain t c s : mild s (pause_plain t c s).
 Proof. destruct c; unfold pause_plain; mm. Qed.
 Lemma mild_exit_ctx t c s : mild s (exit_ctx t c s).
-Proof. unfold exit_ctx. eapply mild_trans; [|apply mild_pause_plain]. destruct (get_task t s); mm. Qed.
+Proof. unfold exit_ctx. destruct (get_task t s) as [tk|]; [destruct (tk_cact tk)|]; try (eapply mild_trans; [|apply mild_pause_plain]); mm. Qed.
 
 Lemma mild_fold {X} (f : st -> X -> st) l : (forall s x, mild s (f s x)) -> forall s, mild s (fold_left f l s).
 Proof. intros H. induction l as [|x l IH]; intros s; cbn; [apply mild_refl|]. eapply mild_trans; [apply H|apply IH]. Qed.
@@ -471,7 +471,7 @@ Proof. unfold enter_ctx. destruct (get_task t s) eqn:G; destruct c; kk. Qed.
 Lemma keep_pause_plain t c s : keep s (pause_plain t c s).
 Proof. destruct c; unfold pause_plain; kk. Qed.
 Lemma keep_exit_ctx t c s : keep s (exit_ctx t c s).
-Proof. unfold exit_ctx. eapply keep_trans; [|apply keep_pause_plain]. destruct (get_task t s) eqn:G; kk. Qed.
+Proof. unfold exit_ctx. destruct (get_task t s) as [tk|] eqn:G; [destruct (tk_cact tk)|]; try (eapply keep_trans; [|apply keep_pause_plain]); kk. Qed.
 
 Lemma keep_fold {X} (f : st -> X -> st) l : (forall s x, keep s (f s x)) -> forall s, keep s (fold_left f l s).
 Proof. intros H. induction l as [|x l IH]; intros s; cbn; [apply keep_refl|]. eapply keep_trans; [apply H|apply IH]. Qed.
